@@ -301,6 +301,23 @@ func (sc *scene) mutate(pb *kproto.Block, name string) error {
 		default:
 			lc.Signatures[0], lc.Signatures[1] = absent, absent
 		}
+	case "lc.sig34.nil-signed":
+		if err := needSigs(4); err != nil {
+			return nil
+		}
+		for _, k := range []int{2, 3} {
+			s := &lc.Signatures[k]
+			if s.BlockIdFlag != kproto.BlockIDFlag(types.BlockIDFlagCommit) {
+				continue
+			}
+			for i, pv := range sc.nw.privs {
+				if bytes.Equal(pv.GetAddress().Bytes(), s.ValidatorAddress) {
+					v := sc.nw.signedVote(i, kproto.PrecommitType, lc.Height, lc.Round, types.BlockID{}, s.Timestamp)
+					s.BlockIdFlag = kproto.BlockIDFlag(types.BlockIDFlagNil)
+					s.Signature = v.Signature
+				}
+			}
+		}
 	case "lc.sig1.nilflag", "lc.sig1.ts", "lc.sig1.addr-stranger", "lc.sig1.addr-validator", "lc.sig1.badsig", "lc.sig.swap12", "lc.sig1.nosig", "lc.sig1.flag0":
 		need := 1
 		if name == "lc.sig.swap12" {
